@@ -1,0 +1,63 @@
+//go:build verif
+
+// Verification hook (build tag "verif" only): runs Receive to completion on a scripted stream and
+// reports what it did, with a panic of the receive goroutine turned into a value. No behaviour
+// change; absent from normal builds.
+
+package xds
+
+import (
+	"time"
+
+	discovery "github.com/envoyproxy/go-control-plane/envoy/service/discovery/v3"
+)
+
+// VerifC04RecvResult is what one run of Receive did.
+type VerifC04RecvResult struct {
+	// Forwarded are the requests handed to the processing loop, in order.
+	Forwarded []*discovery.DiscoveryRequest
+	// Err is the error Receive put on the error channel (nil: none).
+	Err error
+	// InitializedClosed reports that the initialized channel was closed when Receive returned.
+	InitializedClosed bool
+	// Panic is non-nil when Receive panicked: in production the stream goroutine (and the process) dies.
+	Panic any
+}
+
+// VerifC04Receive runs Receive(ctx) until the stream's Recv returns an error. The request channel is
+// drained concurrently, as the processing loop of Stream does.
+func VerifC04Receive(ctx ConnectionContext) (res VerifC04RecvResult) {
+	con := ctx.XdsConnection()
+	drained := make(chan struct{})
+	go func() {
+		defer close(drained)
+		for r := range con.reqChan {
+			res.Forwarded = append(res.Forwarded, r)
+		}
+	}()
+	func() {
+		defer func() {
+			if r := recover(); r != nil {
+				res.Panic = r
+			}
+		}()
+		Receive(ctx)
+	}()
+	select {
+	case <-drained:
+	case <-time.After(2 * time.Second):
+	}
+	select {
+	case e, ok := <-con.errorChan:
+		if ok {
+			res.Err = e
+		}
+	default:
+	}
+	select {
+	case <-con.initialized:
+		res.InitializedClosed = true
+	default:
+	}
+	return res
+}
